@@ -23,6 +23,9 @@ import (
 // fv    = sv | ~ (nil pointer) | L(sv+sv) | M(keyHex=sv+..) | T(sv+sv)
 // sv    = 0|1 (bool) | decimal (ints) | decimal bits (floats) | hex (string)
 
+// cfgNamedID: a named string type for id / parent fields
+type cfgNamedID string
+
 type cfgField struct {
 	edge  bool
 	ptype string
@@ -95,9 +98,15 @@ func cfgGoType(desc string, fields []cfgField) reflect.Type {
 	if t, ok := structCache[desc]; ok {
 		return t
 	}
+	// one type descriptor in three declares its id and parent fields with a NAMED string type (type NodeID string), as
+	// application code may: everything that reads them must go by kind, not by the exact type
+	idT := reflect.TypeOf("")
+	if len(desc)%3 == 0 {
+		idT = reflect.TypeOf(cfgNamedID(""))
+	}
 	fs := []reflect.StructField{
-		{Name: "ID", Type: reflect.TypeOf(""), Tag: `node:"id"`},
-		{Name: "Parent", Type: reflect.TypeOf(""), Tag: `node:"parent"`},
+		{Name: "ID", Type: idT, Tag: `node:"id"`},
+		{Name: "Parent", Type: idT, Tag: `node:"parent"`},
 	}
 	for i, f := range fields {
 		var t reflect.Type
